@@ -267,8 +267,20 @@ package commands
 
 // direct-assignment leaf: read exactly object#relation (any user) with the request's consistency, keep only tuples that
 // are valid for the model in use, list the users sorted
+// (C20, release kernel: the datastore iterator opened here is released on every path — the outermost adapter built over
+// it is stopped by a registered defer, and the adapters' Stop reaches the wrapped iterator, see pkg/storage)
 //@ func (*ExpandQuery).resolveThis(q, ctx, store, tk, typesys, consistency) (res, err)
-//@   property C30
+//@   property C30 C20
+//@   option monitor_props release=C20
+//@   ensures @iteratorReleased opened ==> released
+//@   monitor release
+//@     ghost cur iface = nil
+//@     ghost opened = false
+//@     ghost released = false
+//@     after call storage.RelationshipTupleReader.Read | storage.OpenFGADatastore.Read returning it, e : opened = e == nil ; cur = it ; released = false
+//@     after call storage.NewTupleKeyIteratorFromTupleIterator args x returning r : cur = (x == cur ? r : cur)
+//@     after call storage.NewFilteredTupleKeyIterator args x, f returning r : cur = (x == cur ? r : cur)
+//@     after call defer:storage.Iterator.Stop | defer:storage.TupleKeyIterator.Stop | defer:storage.TupleIterator.Stop args recv : released = released || recv == cur
 //@   option nosafety
 //@   option defer_neutral
 //@   monitor leaf
@@ -288,7 +300,17 @@ package commands
 
 // tuple-to-userset leaf: read the tupleset relation on the expanded object, keep only tuples valid for the model
 //@ func (*ExpandQuery).resolveTupleToUserset(q, ctx, store, userset, tk, typesys, consistency) (res, err)
-//@   property C30
+//@   property C30 C20
+//@   option monitor_props release=C20
+//@   ensures @iteratorReleased opened ==> released
+//@   monitor release
+//@     ghost cur iface = nil
+//@     ghost opened = false
+//@     ghost released = false
+//@     after call storage.RelationshipTupleReader.Read | storage.OpenFGADatastore.Read returning it, e : opened = e == nil ; cur = it ; released = false
+//@     after call storage.NewTupleKeyIteratorFromTupleIterator args x returning r : cur = (x == cur ? r : cur)
+//@     after call storage.NewFilteredTupleKeyIterator args x, f returning r : cur = (x == cur ? r : cur)
+//@     after call defer:storage.Iterator.Stop | defer:storage.TupleKeyIterator.Stop | defer:storage.TupleIterator.Stop args recv : released = released || recv == cur
 //@   option nosafety
 //@   option defer_neutral
 //@   monitor leaf
@@ -483,3 +505,16 @@ package commands
 //@     ghost code int = 0
 //@     after call status.FromError args e returning st, ok : fromCalled = e == err ; fromOK = ok
 //@     after call (*status.Status).Code returning c : code = c
+
+// ------------------------------------------------------------------ C19: no-panic sweep (thin, safety-only contracts)
+// every index and slice expression of these functions is in range for ALL inputs, with no precondition (generated by
+// bin/sweepgen, kept because every obligation discharges; callees without contract are treated as arbitrary)
+//@ func (*WriteCommand).validateNoDuplicatesAndCorrectSize(recv, a0, a1) (r0)
+//@   property C19
+//@   option nosafety
+//@   option safety slice,index
+
+//@ func keyMapFromSlice(a0) (r0)
+//@   property C19
+//@   option nosafety
+//@   option safety slice,index
